@@ -55,9 +55,9 @@ CHECKS = {
     "C11": (
         "exploration",
         "property-based schedule generation with an exact reference model: arrival/drain timelines under a fake selector and virtual perf_counter; outcome and virtual end time compared with the model",
-        "Blocking recv_packet / send_packet / iter_received_packets (stream endpoints with both receive paths, TCP and UDP clients, datagram endpoint) run single-threaded against generated arrival timelines, spurious wake-ups and retry intervals; "
+        "Blocking recv_packet / send_packet / iter_received_packets (stream endpoints with both receive paths, TCP and UDP clients, datagram endpoint, blocking TLS transport receive) and the asynchronous client iterator run single-threaded against generated arrival timelines, spurious wake-ups and retry intervals; "
         "the call must succeed exactly when its last byte arrives before the deadline and otherwise raise TimeoutError after exactly T of waiting; T=0 never enters select().",
-        "Virtual time: only select() waits take time; TLS blocking transport and real-thread lock contention are outside these layers.",
+        "Virtual time: only select() waits take time; the asynchronous iterator runs on the virtual loop with ElapsedTime pointed at the loop clock; TLS receive side only; real-thread lock contention is modelled by a virtual lock.",
         "DESIGN.md section 3 C11",
     ),
     "C03": (
